@@ -339,10 +339,7 @@ func RunBatch(t *testing.T, bs BatchSpec) BatchResult {
 			fam = &fams[0]
 		}
 		spec := RunSpec{Prop: bs.Prop, Fam: fam.Name, Seed: seed, Thorough: bs.Thorough}
-		if bs.LastFile != "" {
-			b, _ := json.Marshal(spec)
-			os.WriteFile(bs.LastFile, b, 0o644)
-		}
+		LastFile = bs.LastFile
 		r := ExecRun(t, spec)
 		account(&r)
 		if len(r.Viol) > 0 {
